@@ -175,7 +175,12 @@ pub mod vf_lemmas {
     pub broadcast proof fn vf_bv_usize_and4294967295(x: usize)
         ensures #[trigger] (x & 4294967295) == x % 4294967296,
     { assert((x & 4294967295) == x % 4294967296) by (bit_vector); }
+    pub broadcast proof fn vf_bv_u8_nibbles(a: u8, b: u8)
+        requires a < 16, b < 16,
+        ensures #[trigger] ((a << 4) | b) == 16 * a + b,
+    { assert(a < 16 && b < 16 ==> ((a << 4) | b) == 16 * a + b) by (bit_vector); }
     pub broadcast group vf_bv_facts {
+        vf_bv_u8_nibbles,
         vf_bv_u64_shr1,
         vf_bv_u64_and1,
         vf_bv_u64_shl1,
